@@ -80,6 +80,14 @@ func checkCmd(args []string) int {
 	case "C12":
 		cr.CheckDeterminism()
 		return cr.Finish("proof", checkerCmd, append(commonTrusted, "the structural order-independence rules of engine/vc/determinism.go"), "one obligation per nondeterminism source (map range, maps.Keys, environment/clock/random read, goroutine/select) in every function reachable from the generator entry points; each map range must fit an order-independence rule")
+	case "C04", "C05":
+		entries := vc.FixtureCorpus(*repo, "get_params", "params", "get_query_array", "path_parameters", "components_params", "request_body", "router")
+		if *tier != "quick" {
+			entries = vc.FixtureCorpus(*repo)
+			entries = append(entries, vc.RouteCorpus(corpusDir, "quick", seed)...)
+		}
+		cr.CheckParams(entries)
+		return cr.Finish("proof", checkerCmd, commonTrusted, "one obligation per (new<Op>Params return site, clause) and per array-loop invariant edge; all requests; reference parser skeleton from the spec")
 	case "C14":
 		entries := vc.FixtureCorpus(*repo, "get_params", "router", "security_jwt_apikey_query", "response_header", "response_component", "json", "request_body")
 		if *tier != "quick" {
